@@ -122,6 +122,24 @@ func (s *subscriberServer) CreateSubscription(
 	if req.PushConfig != nil {
 		params.PushEndpoint = req.PushConfig.PushEndpoint
 	}
+	if params.TTL < 0 || params.MessageTTL < 0 {
+		return nil, status.Error(
+			codes.InvalidArgument,
+			"expiration_policy.ttl and message_retention_duration must not be negative",
+		)
+	}
+	if params.MaxDeliveryAttempts < 0 {
+		return nil, status.Error(
+			codes.InvalidArgument,
+			"dead_letter_policy.max_delivery_attempts must not be negative",
+		)
+	}
+	if req.DeadLetterPolicy != nil && params.DeadLetterTopic == "" {
+		return nil, status.Error(
+			codes.InvalidArgument,
+			"dead_letter_policy.dead_letter_topic must be set",
+		)
+	}
 	action := actions.NewCreateSubscription(params)
 	err := s.client.DoCtxTx(ctx, &sql.TxOptions{Isolation: sql.LevelSerializable}, action.Execute)
 	if err != nil {
